@@ -117,8 +117,9 @@ def tsan(ctx):
 
 
 def run(ctx):
-    ctx.extract(["c12bounds", "c12sharing"])
-    ctx.prove(PROPS, extra_modules=["RotoV.Lemmas.Conc", "RotoV.Model.Conc", "RotoV.Lemmas.ConcShare", "RotoV.Model.ConcShare"])
+    ctx.extract(["c12bounds", "c12sharing", "c12instr"])
+    ctx.prove(PROPS, extra_modules=["RotoV.Lemmas.Conc", "RotoV.Model.Conc", "RotoV.Lemmas.ConcShare", "RotoV.Model.ConcShare",
+                                     "RotoV.Lemmas.ConcExec", "RotoV.Model.ConcExec", "RotoV.Model.ConcInstr"])
     if ctx.build_harness("c12"):
         ctx.harness("c12", harness_args(ctx, ctx.seed, ctx.tier), timeout=3000)
         if ctx.tier == "thorough":
